@@ -70,7 +70,11 @@ def build_pool():
 
             @srpc(_returns=Integer)
             def f(): return bump('G_f')
-        return {'A': A, 'B': B, 'C': C, 'D': D, 'E': E, 'G': G}
+
+        class H(Service):
+            @srpc(_returns=Integer, _in_message_name='{urn:elsewhere}f')
+            def p(): return bump('H_p')
+        return {'A': A, 'B': B, 'C': C, 'D': D, 'E': E, 'G': G, 'H': H}
     return mk
 
 
@@ -160,6 +164,9 @@ def http_patterns(ctx):
 
         @srpc(_returns=Integer)
         def m5(): ran.append('m5'); return 1
+
+        @srpc(_returns=Integer, _patterns=[HttpPattern('/a/list')])
+        def m6(): ran.append('m6'); return 1
     try:
         w = WsgiApplication(Application([S], 'tns', in_protocol=HttpRpc(), out_protocol=JsonDocument()))
     except Exception as e:
